@@ -139,8 +139,19 @@ def _falsy_default_cases():
                         yield {'spec': tree, 'inputs': copy.deepcopy(inputs)}
 
 
+def _refiled_cases():
+    """Ports re-filed under another key of their namespace after the declaration."""
+    for req in (True, False):
+        for dyn in (True, False):
+            tree = pm.ns({'x': pm.port(required=req, valid_type='int'), 'y': pm.port(required=False, valid_type='str', default=['plain', 's']), 'sub': pm.ns({'q': pm.port(required=req, valid_type='int')}, dynamic=dyn, valid_type='int' if dyn else None)}, dynamic=dyn)
+            for refile in ([[['x'], 'base_x']], [[['sub', 'q'], 'renamed']], [[['y'], 'why'], [['x'], 'ex']]):
+                for inputs in ({}, {'x': 1}, {'base_x': 1}, {'base_x': 's'}, {'ex': 2, 'why': 't'}, {'ex': 2, 'y': 3}, {'x': 1, 'sub': {'q': 1}}, {'x': 1, 'sub': {'renamed': 1}}, {'x': 1, 'sub': {'renamed': 's'}}, {'x': 1, 'sub': {'renamed': 1, 'q': 's'}}):
+                    yield {'spec': tree, 'inputs': copy.deepcopy(inputs), 'refile': refile}
+
+
 def enumerate_cases(tier, scope):
     if scope == 'dynamic':
+        yield from _refiled_cases()
         yield from _typed_validator_cases()
         yield from _falsy_default_cases()
         yield from _dynamic_cases()
@@ -311,11 +322,11 @@ def execute(case):
         viol.append({'clause': clause, 'detail': detail})
 
     declared = case['spec']
-    tree = pm.adjusted(declared, case.get('adjust'))
+    tree = pm.refiled(pm.adjusted(declared, case.get('adjust')), case.get('refile'))
     given = case['inputs']
     # the model decides first
     accepted, parsed = pm.accepts_inputs(tree, copy.deepcopy(given) if given is not None else {})
-    program = {'steps': [{'async': False, 'body': [], 'ret': ['value', 0]}], 'spec': {'inputs': declared, 'adjust': case.get('adjust') or []}}
+    program = {'steps': [{'async': False, 'body': [], 'ret': ['value', 0]}], 'spec': {'inputs': declared, 'adjust': case.get('adjust') or [], 'refile': [['input', path, new] for path, new in case.get('refile') or []]}}
     cls = make_class(program)
     caller = copy.deepcopy(given)
     snapshot = copy.deepcopy(caller)
